@@ -4,7 +4,7 @@ from .fe import FeFamily
 
 PROPS_MODULES = ["C09", "C09Dispatch"]
 RULE = ("family `srv` (malformed + well-formed modes): request histories with 0..40 fresh memfds attached at arbitrary positions (on "
-        "requests that take none, with wrong counts, beyond the 32-descriptor limit, on garbage), early close, teardown after the "
+        "requests that take none, with wrong counts, beyond the 32-descriptor limit, on garbage, in the middle of a message on the body segment `bf<n>`), files returned by value from handlers (GET_INFLIGHT_FD, GET_SHARED_OBJECT, … ids 900+), early close, teardown after the "
         "last step of every scenario; after dropping handler, endpoint and sockets the process's descriptor table is scanned "
         "(/proc/self/fd + fstat) for objects that travelled over the socket (`L=`); descriptors delivered to the recording handler "
         "are identified by (st_dev, st_ino). family `fe`: the frontend side — descriptors lent to API calls must still be open and "
@@ -23,5 +23,5 @@ class FdFe(FeFamily):
         return "wf=-" not in obs or "/1" in line or "/2" in line or "/3" in line or ":1" in obs
 
 
-FAMILIES = [FdSrv(modes=("malformed", "wf"), quick=(800, 0, 3500), thorough=(10000, 0, 60000)),
+FAMILIES = [FdSrv(modes=("bodyfds", "malformed", "wf"), quick=(800, 0, 3500), thorough=(10000, 0, 60000)),
             FdFe(modes=("srv", "mut"), quick=(1500, 0, 2500), thorough=(20000, 0, 40000))]
